@@ -564,9 +564,7 @@ func (i *Iterator[T]) ProcessParallel(
 		operation := fn.WithRecover().WithErrorFilter(func(err error) error {
 			return ft.WhenDo(
 				!opts.CanContinueOnError(err),
-				// stop the other workers (and the splitting
-				// goroutine) as well.
-				func() error { cancel(); return io.EOF },
+				ft.Wrapper(io.EOF),
 			)
 		})
 
